@@ -5,7 +5,8 @@ generated once per check run."""
 UNITS = {
     'C02': {
         'functions': ['penman.layout:_process_role', 'penman.layout:_process_atomic', 'penman.layout:_preconfigure',
-                      'penman.layout:get_pushed_variable'],
+                      'penman.layout:get_pushed_variable', 'penman.surface:AlignmentMarker.from_string',
+                      'penman.tree:_nodes', 'penman.tree:Tree.nodes', 'penman.layout:interpret'],
         'lemmas': ['pops_add_no_entries', 'entry_adds_its_triple'],
         'level': 'other',
         'explanation': 'Proved: how a role / an atom and its alignment suffix are split when a tree is read '
@@ -89,7 +90,9 @@ UNITS = {
         'functions': ['penman._format:_format_edge', 'penman.model:Model.invert_role', 'penman.model:Model.invert',
                       'penman.model:Model.deinvert', 'penman.model:Model.is_role_inverted',
                       'penman.graph:Graph.__init__', 'penman.graph:Graph.variables', 'penman.graph:Graph.top',
-                      'penman.layout:_preconfigure'],
+                      'penman.layout:_preconfigure',
+                      # the decode side: which variables a tree defines, and the graph it is read as
+                      'penman.tree:_nodes', 'penman.tree:Tree.nodes', 'penman.layout:interpret'],
         'lemmas': ['pops_add_no_entries', 'entry_adds_its_triple'],
         'level': 'other',
         'explanation': 'Proved: the configuration data holds every triple of the graph exactly once, in order, as it is or '
@@ -172,7 +175,8 @@ UNITS = {
         'functions': ['penman.layout:_process_role', 'penman.layout:_process_atomic',
                       'penman.model:Model.is_role_inverted', 'penman.model:Model.invert',
                       'penman.model:Model.deinvert', 'penman.models.noop:NoOpModel.deinvert',
-                      'penman.layout:_interpret_node', 'penman.layout:interpret'],
+                      'penman.layout:_interpret_node', 'penman.layout:interpret',
+                      'penman.tree:_nodes', 'penman.tree:Tree.nodes'],
         'lemmas': ['deinvert_laws', 'read_edges_step', 'read_edges_snoc', 'prefix_snoc', 'with_pop_is'],
         'level': 'other',
         'explanation': 'Proved, for every tree of the stated shape, every variable set and every model: '
